@@ -3,7 +3,7 @@ import os, json, struct, math
 import vf
 
 PROP = "C12"
-THEOREMS = ["cbor_canonical_refuted"]
+THEOREMS = ["cbor_roundtrip", "cbor_canonical", "cbor_decode_injective"]
 PRE = ("From Coq Require Import List NArith ZArith.\nFrom Echo Require Import Base.Bytes Model.Cbor.\n"
        "Import ListNotations.\nOpen Scope N_scope.\n")
 
@@ -133,21 +133,20 @@ def float_class(b):
     if e == 0x7ff: return "nan" if m else "inf"
     x = bits64f(b)
     if x == 0: return "zero"
+    big = ""
     if x == math.floor(x):
-        a = abs(x)
-        if a >= 2.0 ** 127 and not (a == 2.0 ** 127): return "integral>2^127"
-        if x >= 2.0 ** 64 or x < -(2.0 ** 63): return "integral-outside-int-range"
-        return "integral"
+        if -(2.0 ** 64) <= x < 2.0 ** 64: return "integral"
+        big = "big-integral-"            # integral floats outside the CBOR integer range stay floats
     if e == 0: return "f64-subnormal"
     try:
         if f64bits(struct.unpack(">e", struct.pack(">e", x))[0]) == b: return "fits-f16"
     except (OverflowError, struct.error):
         pass
     try:
-        if f64bits(struct.unpack(">f", struct.pack(">f", x))[0]) == b: return "fits-f32"
+        if f64bits(struct.unpack(">f", struct.pack(">f", x))[0]) == b: return big + "fits-f32"
     except (OverflowError, struct.error):
         pass
-    return "needs-f64"
+    return big + "needs-f64"
 
 
 INT_BOUNDS = [0, 1, 10, 23, 24, 25, 255, 256, 65535, 65536, 2 ** 32 - 1, 2 ** 32, 2 ** 53, 2 ** 63 - 1, 2 ** 63, 2 ** 64 - 1,
@@ -171,26 +170,23 @@ TEXTS = ["", "a", "id", "kind", "héllo", "€", "😀", "\x00", "\x7f", "key", 
 
 def gen_int(rng, allow_defect):
     r = rng.random()
-    if allow_defect and r < 0.03: return rng.choice(INT_BELOW_I64)
+    if r < 0.04: return rng.choice(INT_BELOW_I64)
     if r < 0.45: return rng.choice(INT_BOUNDS)
     if r < 0.7: return rng.randint(-300, 300)
     bl = rng.choice([8, 16, 32, 33, 62, 63, 64])
     n = rng.getrandbits(bl)
     if rng.random() < 0.5:
         n = -n - 1
-        if n < -2 ** 63: n = -2 ** 63 + rng.getrandbits(20)
     return n
 
 
 def gen_float(rng, allow_defect):
-    while True:
-        b = gen_float1(rng, allow_defect)
-        if allow_defect or float_class(b) != "integral-outside-int-range": return b
+    return gen_float1(rng, allow_defect)
 
 
 def gen_float1(rng, allow_defect):
     r = rng.random()
-    if allow_defect and r < 0.03: return rng.choice(FLOAT_OUTSIDE)
+    if r < 0.04: return rng.choice(FLOAT_OUTSIDE)
     if r < 0.30: return rng.choice(FLOAT_SPECIAL)
     if r < 0.34: return rng.choice(FLOAT_HUGE)
     if r < 0.50: return h2d(rng.getrandbits(16))
@@ -198,10 +194,7 @@ def gen_float1(rng, allow_defect):
     if r < 0.72: return s2d(rng.getrandbits(23) | (rng.getrandbits(1) << 31))          # f32 subnormals
     if r < 0.78: return h2d(rng.getrandbits(10) | (rng.getrandbits(1) << 15))          # f16 subnormals
     if r < 0.84: return f64bits(float(rng.randint(-70000, 70000)) + rng.choice([0.0, 0.5, 0.25, 0.125, 2.0 ** -11, 2.0 ** -30]))
-    b = rng.getrandbits(64)
-    if allow_defect is False and float_class(b) == "integral-outside-int-range":
-        b &= ~(1 << 62)
-    return b
+    return rng.getrandbits(64)
 
 
 LONG_TEXTS = ["x" * 255, "w" * 256, "é" * 128]
@@ -221,9 +214,7 @@ def gen_value(rng, d, allow_defect=True, allow_bad=True, budget=None):
     if d <= 0 or budget[0] <= 0: r *= 0.7
     if r < 0.22: return ("i", gen_int(rng, allow_defect))
     if r < 0.42:
-        b = gen_float(rng, allow_defect)
-        if not allow_defect and float_class(b) == "integral-outside-int-range": b = 0x3ff8000000000000
-        return ("f", b)
+        return ("f", gen_float(rng, allow_defect))
     if r < 0.52: return ("t", list(gen_text(rng).encode("utf8")))
     if r < 0.60:
         n = rng.choice([0, 1, 2, 5, 23, 24, 32, 255, 256]) if rng.random() < 0.6 else rng.randint(0, 40)
@@ -269,7 +260,7 @@ def enc_float_py(b, rng=None, sab=None):
     x = bits64f(b)
     if sab == "float-wider":
         if cls in ("fits-f16",): return (b"\xfa" + struct.pack(">f", x)) if rng.random() < 0.5 else (b"\xfb" + struct.pack(">d", x))
-        if cls in ("fits-f32",): return b"\xfb" + struct.pack(">d", x)
+        if cls in ("fits-f32", "big-integral-fits-f32"): return b"\xfb" + struct.pack(">d", x)
         if cls in ("nan", "inf"): return (b"\xfa" + struct.pack(">I", s_nan_inf(b))) if rng.random() < 0.5 else b"\xfb" + b.to_bytes(8, "big")
     if sab == "float-integral" and cls in ("integral", "zero"):
         for fmt, tag in ((">e", b"\xf9"), (">f", b"\xfa"), (">d", b"\xfb")):
@@ -284,9 +275,8 @@ def enc_float_py(b, rng=None, sab=None):
     if cls == "nan": return b"\xf9\x7e\x00"
     if cls == "inf": return b"\xf9\x7c\x00" if x > 0 else b"\xf9\xfc\x00"
     if cls in ("zero", "integral"): return enc_int_py(int(x))
-    if cls == "integral-outside-int-range": return enc_int_py(int(x))        # not what the code does; never relied upon
     if cls == "fits-f16": return b"\xf9" + struct.pack(">e", x)
-    if cls == "fits-f32": return b"\xfa" + struct.pack(">f", x)
+    if cls in ("fits-f32", "big-integral-fits-f32"): return b"\xfa" + struct.pack(">f", x)
     return b"\xfb" + struct.pack(">d", x)
 
 
@@ -355,21 +345,28 @@ SABOTAGES = ["head-wider", "float-wider", "float-integral", "int-as-float", "nan
 
 def sabotaged(rng, v):
     nodes = list(walk(v))
-    sab = rng.choice(SABOTAGES)
     want = {"head-wider": "itbam", "float-wider": "f", "float-integral": "f", "int-as-float": "i", "nan-payload": "f",
             "map-swap": "m", "map-dup": "m", "map-lenfirst": "m", "indefinite": "tbam", "tag": "TFNiftbam", "len-off": "a"}
-    if sab in ("trailing", "truncate"):
-        b = py_enc(v, rng)
-        if sab == "trailing": return sab, b + bytes([rng.getrandbits(8) for _ in range(rng.randint(1, 3))])
-        return sab, b[:rng.randrange(len(b))] if len(b) > 0 else b
-    idx = [i for i, n in enumerate(nodes) if n[0] in want[sab]]
-    if sab == "float-wider": idx = [i for i in idx if float_class(nodes[i][1]) in ("fits-f16", "fits-f32", "nan", "inf")]
-    if sab == "float-integral": idx = [i for i in idx if float_class(nodes[i][1]) in ("integral", "zero")]
-    if sab == "nan-payload": idx = [i for i in idx if float_class(nodes[i][1]) == "nan"]
-    if sab in ("map-swap", "map-lenfirst"): idx = [i for i in idx if len(nodes[i][1]) >= 2]
-    if sab == "map-dup": idx = [i for i in idx if len(nodes[i][1]) >= 1]
-    if not idx: return "none", py_enc(v, rng)
-    return sab, py_enc(v, rng, rng.choice(idx), sab)
+    def applicable(sab):
+        if sab in ("trailing", "truncate"): return [0]
+        idx = [i for i, n in enumerate(nodes) if n[0] in want[sab]]
+        if sab == "float-wider": idx = [i for i in idx if float_class(nodes[i][1]) in ("fits-f16", "fits-f32", "big-integral-fits-f32", "nan", "inf")]
+        if sab == "float-integral": idx = [i for i in idx if float_class(nodes[i][1]) in ("integral", "zero")]
+        if sab == "nan-payload": idx = [i for i in idx if float_class(nodes[i][1]) == "nan"]
+        if sab == "int-as-float": idx = [i for i in idx if abs(nodes[i][1]) < 2 ** 53]
+        if sab in ("map-swap", "map-lenfirst"): idx = [i for i in idx if len(nodes[i][1]) >= 2]
+        if sab == "map-dup": idx = [i for i in idx if len(nodes[i][1]) >= 1]
+        return idx
+    order = list(SABOTAGES); rng.shuffle(order)
+    for sab in order:
+        idx = applicable(sab)
+        if not idx: continue
+        if sab in ("trailing", "truncate"):
+            b = py_enc(v, rng)
+            if sab == "trailing": return sab, b + bytes([rng.getrandbits(8) for _ in range(rng.randint(1, 3))])
+            return sab, b[:rng.randrange(len(b))] if len(b) > 0 else b
+        return sab, py_enc(v, rng, rng.choice(idx), sab)
+    return "none", py_enc(v, rng)
 
 
 def mutate(rng, b):
@@ -588,9 +585,14 @@ def run(tier, seed, replay=None):
         cases.append("exh=0 p=-")
         cases.append("exh=1 p=-")
         cases.append("exh=2 p=-")
-        for b0 in range(256):                      # the whole 3-byte universe, model vs implementation
+        hot = [0x00, 0x17, 0x18, 0x19, 0x1a, 0x1b, 0x1c, 0x1f, 0x20, 0x38, 0x39, 0x3b, 0x40, 0x41, 0x42, 0x58, 0x59, 0x5f, 0x60, 0x61,
+               0x62, 0x78, 0x79, 0x7f, 0x80, 0x81, 0x82, 0x98, 0x99, 0x9f, 0xa0, 0xa1, 0xb8, 0xb9, 0xbf, 0xc0, 0xd8, 0xe0, 0xf4, 0xf5,
+               0xf6, 0xf7, 0xf8, 0xf9, 0xfa, 0xfb, 0xfc, 0xff]
+        firsts = hot if quick else list(range(256))      # thorough: the whole 3-byte universe, model vs implementation
+        for b0 in firsts:
             cases.append("exh=2 p=%02x" % b0)
-        impl_only = []
+        # implementation-side oracle over the whole 3-byte universe (accepted => re-encodes identically)
+        impl_only = [] if not quick else ["exh=3 p=- rle=0"]
 
     import time
     try:
@@ -610,7 +612,9 @@ def run(tier, seed, replay=None):
         kcases = [cases[i] for i in keep]
         kimpl = [impl_full[i] for i in keep]
         exe = build_driver()
+        r.phase("model_build", seconds=round(time.time() - t0, 1)); t0 = time.time()
         model = run_model(exe, kcases)
+        r.phase("model_run_extracted", seconds=round(time.time() - t0, 1), cases=len(kcases)); t0 = time.time()
         # kernel cross-check of the extraction: a sample of small cases through coqc/vm_compute
         small = [i for i, c in enumerate(kcases) if len(c) < 160 and not c.startswith("exh") and not c.startswith("f16tab")]
         pick = sorted(rng.sample(small, min(len(small), 48 if quick else 400)))
@@ -620,7 +624,7 @@ def run(tier, seed, replay=None):
         r.cov["kernel_vm_compute_crosschecked"] = len(pick)
         for c, a, b in kbad[:2]:
             r.is_broken("extraction-vs-kernel", f"extracted model and vm_compute disagree on {c[:200]}\n ocaml: {a[:300]}\n coq  : {b[:300]}")
-        r.phase("model_run", seconds=round(time.time() - t0, 1), terms=len(kcases))
+        r.phase("model_run_kernel_crosscheck", seconds=round(time.time() - t0, 1), terms=len(pick))
     except (vf.Broken, ValueError, KeyError, IndexError) as e:
         r.is_broken("correspondence-run", repr(e))
         return r.finish()
@@ -638,10 +642,12 @@ def run(tier, seed, replay=None):
             r.violation("abi:panic", "harness caught a panic: " + l[:200], {"case": c, "impl": l[:400]})
     tot = {"total": 0, "acc": 0, "bad": 0, "bad_f16nan": 0}
     firsts = []
-    for c, l in zip(kcases, kimpl):
+    full3 = [(c, l) for c, l in zip(kcases, kimpl) if c.startswith("exh=2 p=") and c != "exh=2 p=-"]
+    use_extra = len(full3) < 256
+    for c, l in list(zip(kcases, kimpl)) + [("exh=3 p=-", l) for l in extra]:
         if c.startswith("exh=") and " total=" in l:
             m = dict(t.split("=", 1) for t in l.split()[1:])
-            if c.startswith("exh=2 p=") and c != "exh=2 p=-":
+            if (use_extra and c == "exh=3 p=-") or (not use_extra and c.startswith("exh=2 p=") and c != "exh=2 p=-"):
                 for k in tot: tot[k] += int(m[k])
             if m["first"] != "-": firsts += m["first"].split(",")
             if int(m["bad_f16nan"]) > 0:
@@ -651,7 +657,7 @@ def run(tier, seed, replay=None):
                 r.violation("abi:accepted-noncanonical:other", f"exhaustive `{c}`: {m['bad']} accepted non-canonical, first {m['first']}",
                             {"case": "b=" + m["first"].split(",")[-1]})
     tot["first_noncanonical"] = firsts[:6]
-    r.cov["exhaustive_3_byte_universe"] = tot
+    r.cov["exhaustive_3_byte_universe_impl_oracle"] = tot
     for i in bad[:3]:
         r.is_broken("correspondence", f"model and implementation differ on: {kcases[i][:300]}\n impl : {impl[i][:600]}\n model: {model[i][:600]}")
     # evidence
